@@ -17,6 +17,17 @@ package lib
 //   .loop             for { … } containing src.Read and dst.Write, no defer / go / goto / label inside
 //   .other            a statement without return / defer / go / goto / label / panic / Close / wg.Done
 //   .unknown          everything else
+// Body of the relay loop (CJ.RelayClock.LStmt, written to CJ/Gen/RelayLoop.lean together with the deadline calls
+// in front of the loop and the two timeout constants):
+//   .read             nr, er := src.Read(buf)
+//   .writeIfData      if nr > 0 { … nw, ew := dst.Write(…) … if ew != nil { …; break } }: one Write on dst, no other call
+//                     on a connection, the `break` under `ew != nil` is the only statement that leaves
+//   .breakIfReadErr   if er != nil { …; break }: nothing else leaves (no continue / return / goto), no call on a connection
+//   .arm b t          err :=|= setConnDeadline(src|dst, time.Now().Add(proxyInitTimeout|proxyStallTimeout))
+//   .retIfErr logs    if err != nil { [logger call]; return }
+//   .other            no break / continue / return / goto / defer / go / label, no call on a connection, no assignment
+//                     to the variables that hold what Read returned
+//   .unknown          everything else
 // Proxy statements (CJ.HalfPipe.PStmt): .dial .retIfDialErr .deferCloseCovert .header .wgAdd n .addSession
 //   .removeSession .goHalf up .wgWait .print .other .unknown
 
@@ -572,6 +583,290 @@ func (x *c05x) proxy(fd *ast.FuncDecl) ([]string, error) {
 	return out, nil
 }
 
+// ---------------------------------------------------------------------------------------------
+// the body of the relay loop
+
+// c05xBranches: n contains a statement that transfers control out of straight-line execution.
+func c05xBranches(n ast.Node) bool {
+	found := false
+	ast.Inspect(n, func(m ast.Node) bool {
+		switch m.(type) {
+		case *ast.BranchStmt, *ast.ReturnStmt, *ast.DeferStmt, *ast.GoStmt, *ast.LabeledStmt:
+			found = true
+		case *ast.CallExpr:
+			r, nm := c05xCallName(m.(*ast.CallExpr))
+			if (r == "" && nm == "panic") || (r == "os" && nm == "Exit") || (r == "runtime" && nm == "Goexit") {
+				found = true
+			}
+		}
+		return !found
+	})
+	return found
+}
+
+// connCalls counts the calls that touch a connection: methods of src / dst, setConnDeadline, and the
+// tear-down actions; except counts calls of dst.<except> separately.
+func (x *c05x) connCalls(n ast.Node, except string) (others, excepted int) {
+	ast.Inspect(n, func(m ast.Node) bool {
+		c, ok := m.(*ast.CallExpr)
+		if !ok {
+			return true
+		}
+		r, nm := c05xCallName(c)
+		switch {
+		case r == x.dst && nm == except && except != "":
+			excepted++
+		case r == x.src || r == x.dst:
+			others++
+		case r == "" && nm == "setConnDeadline":
+			others++
+		case x.act(c, false) != "":
+			others++
+		default:
+			// a connection handed to some other function
+			for _, a := range c.Args {
+				if id := c05xIdent(a); id == x.src || id == x.dst {
+					others++
+				}
+			}
+		}
+		return true
+	})
+	return
+}
+
+// armCall: `<err> :=|= setConnDeadline(src|dst, time.Now().Add(proxyInitTimeout|proxyStallTimeout))`
+func (x *c05x) armCall(s ast.Stmt) (lean string, pair string, errName string, ok bool) {
+	a, isA := s.(*ast.AssignStmt)
+	if !isA || len(a.Lhs) != 1 || len(a.Rhs) != 1 {
+		return
+	}
+	c, isC := a.Rhs[0].(*ast.CallExpr)
+	if !isC {
+		return
+	}
+	if r, n := c05xCallName(c); r != "" || n != "setConnDeadline" || len(c.Args) != 2 {
+		return
+	}
+	side := ""
+	switch c05xIdent(c.Args[0]) {
+	case x.src:
+		side = "true"
+	case x.dst:
+		side = "false"
+	}
+	tmo := ""
+	switch x.text(c.Args[1]) {
+	case "time.Now().Add(proxyInitTimeout)":
+		tmo = ".init"
+	case "time.Now().Add(proxyStallTimeout)":
+		tmo = ".stall"
+	}
+	errName = c05xIdent(a.Lhs[0])
+	if side == "" || tmo == "" || errName == "" {
+		return "", "", errName, false
+	}
+	return ".arm " + side + " " + tmo, "(" + side + ", " + tmo + ")", errName, true
+}
+
+// c05xAssigns: n assigns to, increments or takes the address of one of the named variables.
+func c05xAssigns(n ast.Node, names ...string) bool {
+	is := func(e ast.Expr) bool {
+		id := c05xIdent(e)
+		if id == "" {
+			return false
+		}
+		for _, nm := range names {
+			if nm != "" && id == nm {
+				return true
+			}
+		}
+		return false
+	}
+	found := false
+	ast.Inspect(n, func(m ast.Node) bool {
+		switch t := m.(type) {
+		case *ast.AssignStmt:
+			for _, l := range t.Lhs {
+				if is(l) {
+					found = true
+				}
+			}
+		case *ast.IncDecStmt:
+			if is(t.X) {
+				found = true
+			}
+		case *ast.UnaryExpr:
+			if t.Op == token.AND && is(t.X) {
+				found = true
+			}
+		case *ast.RangeStmt:
+			if (t.Key != nil && is(t.Key)) || (t.Value != nil && is(t.Value)) {
+				found = true
+			}
+		}
+		return !found
+	})
+	return found
+}
+
+func c05xIsBreak(s ast.Stmt) bool {
+	b, ok := s.(*ast.BranchStmt)
+	return ok && b.Tok == token.BREAK && b.Label == nil
+}
+
+// loopBody classifies the statements of the relay loop and lists the deadline calls in front of it.
+func (x *c05x) loopBody(fd *ast.FuncDecl) (body []string, initArms []string, err error) {
+	var loop *ast.ForStmt
+	for _, s := range fd.Body.List {
+		if f, ok := s.(*ast.ForStmt); ok {
+			if loop != nil {
+				return nil, nil, fmt.Errorf("halfPipe has more than one top-level for statement")
+			}
+			loop = f
+			continue
+		}
+		if _, _, _, isArm := x.armCall(s); isArm || x.isSetConnDeadline(s) {
+			if loop != nil {
+				return nil, nil, fmt.Errorf("setConnDeadline call behind the relay loop")
+			}
+			_, pair, _, ok := x.armCall(s)
+			if !ok {
+				return nil, nil, fmt.Errorf("unrecognised deadline call in front of the relay loop: %s", x.text(s))
+			}
+			initArms = append(initArms, pair)
+		}
+	}
+	if loop == nil {
+		return nil, nil, fmt.Errorf("halfPipe has no top-level for statement")
+	}
+	nr, er, lastErr := "", "", ""
+	for _, s := range loop.Body.List {
+		generic := func() {
+			o, _ := x.connCalls(s, "")
+			// a statement that rewrites what Read returned (nr, er) or the pending deadline error decides
+			// what the recognised statements after it do: not `.other`
+			if c05xBranches(s) || o > 0 || c05xAssigns(s, nr, er, lastErr) {
+				body = append(body, ".unknown")
+			} else {
+				body = append(body, ".other")
+			}
+		}
+		switch t := s.(type) {
+		case *ast.AssignStmt:
+			if len(t.Lhs) == 2 && len(t.Rhs) == 1 && nr == "" {
+				if c, ok := t.Rhs[0].(*ast.CallExpr); ok {
+					if r, n := c05xCallName(c); r == x.src && n == "Read" && len(c.Args) == 1 && t.Tok == token.DEFINE {
+						nr, er = c05xIdent(t.Lhs[0]), c05xIdent(t.Lhs[1])
+						if nr != "" && er != "" {
+							body = append(body, ".read")
+							continue
+						}
+					}
+				}
+			}
+			if lean, _, en, ok := x.armCall(s); ok {
+				body = append(body, lean)
+				lastErr = en
+				continue
+			}
+		case *ast.IfStmt:
+			if logs, ok := c05xRetIfErr(t, lastErr); ok && lastErr != "" {
+				body = append(body, ".retIfErr "+strconv.FormatBool(logs))
+				continue
+			}
+			if t.Init == nil && t.Else == nil && nr != "" && x.text(t.Cond) == nr+" > 0" {
+				if x.writeIfData(t) && !c05xAssigns(t.Body, nr, er) {
+					body = append(body, ".writeIfData")
+					continue
+				}
+			}
+			if t.Init == nil && t.Else == nil && er != "" && x.text(t.Cond) == er+" != nil" {
+				n := len(t.Body.List)
+				if n > 0 && c05xIsBreak(t.Body.List[n-1]) {
+					clean := true
+					for _, b := range t.Body.List[:n-1] {
+						o, _ := x.connCalls(b, "")
+						if c05xBranches(b) || o > 0 {
+							clean = false
+						}
+					}
+					if clean {
+						body = append(body, ".breakIfReadErr")
+						continue
+					}
+				}
+			}
+		}
+		generic()
+	}
+	return body, initArms, nil
+}
+
+func (x *c05x) isSetConnDeadline(s ast.Stmt) bool {
+	found := false
+	ast.Inspect(s, func(m ast.Node) bool {
+		if _, ok := m.(*ast.FuncLit); ok {
+			return false
+		}
+		if c, ok := m.(*ast.CallExpr); ok {
+			if r, n := c05xCallName(c); r == "" && n == "setConnDeadline" {
+				found = true
+			}
+		}
+		return !found
+	})
+	return found
+}
+
+// writeIfData: the body of `if nr > 0 { … }` writes once to dst, touches no connection otherwise, and
+// leaves the loop only through `if ew != nil { …; break }` (ew: the error of that Write), a direct child.
+func (x *c05x) writeIfData(t *ast.IfStmt) bool {
+	ew := ""
+	for _, b := range t.Body.List {
+		if a, ok := b.(*ast.AssignStmt); ok && len(a.Lhs) == 2 && len(a.Rhs) == 1 {
+			if c, ok := a.Rhs[0].(*ast.CallExpr); ok {
+				if r, n := c05xCallName(c); r == x.dst && n == "Write" {
+					if ew != "" {
+						return false
+					}
+					ew = c05xIdent(a.Lhs[1])
+				}
+			}
+		}
+	}
+	if ew == "" {
+		return false
+	}
+	if o, w := x.connCalls(t.Body, "Write"); o != 0 || w != 1 {
+		return false
+	}
+	exits := 0
+	for _, b := range t.Body.List {
+		if !c05xBranches(b) {
+			continue
+		}
+		i, ok := b.(*ast.IfStmt)
+		if !ok || i.Init != nil || i.Else != nil {
+			return false
+		}
+		if id, ok := c05xErrNotNil(i.Cond); !ok || id != ew {
+			return false
+		}
+		n := len(i.Body.List)
+		if n == 0 || !c05xIsBreak(i.Body.List[n-1]) {
+			return false
+		}
+		for _, inner := range i.Body.List[:n-1] {
+			if c05xBranches(inner) {
+				return false
+			}
+		}
+		exits++
+	}
+	return exits == 1
+}
+
 func TestVerifC05Extract(t *testing.T) {
 	path := "proxies.go"
 	if root := os.Getenv("VERIF_SCRATCH_REPO"); root != "" {
@@ -618,6 +913,35 @@ func TestVerifC05Extract(t *testing.T) {
 		out = os.TempDir()
 	}
 	if err := os.WriteFile(filepath.Join(out, "RelayShape.lean"), []byte(b.String()), 0o644); err != nil {
+		t.Fatal(err)
+	}
+
+	// the loop body, the deadline calls in front of the loop, the timeout constants
+	ls, ia, err := x.loopBody(hp)
+	if err != nil {
+		t.Fatal(err)
+	}
+	var l strings.Builder
+	l.WriteString("import CJ.Model.RelayClock\n")
+	l.WriteString("/-! GENERATED on every run by go/harness/C05/zz_verif_c05_extract_test.go from pkg/station/lib/proxies.go of the\ntree under check: the statements of the body of the relay loop of `halfPipe` in source order, the deadline\ncalls in front of the loop, and the two timeout constants in milliseconds.  Do not edit. -/\n")
+	l.WriteString("namespace CJ.Gen\nopen CJ.RelayClock\n\n")
+	list2 := func(name, ty string, xs []string) {
+		l.WriteString("def " + name + " : List " + ty + " := [\n")
+		for i, s := range xs {
+			l.WriteString("  " + s)
+			if i+1 < len(xs) {
+				l.WriteString(",")
+			}
+			l.WriteString("\n")
+		}
+		l.WriteString("]\n\n")
+	}
+	list2("relayLoopStmts", "LStmt", ls)
+	list2("relayInitArms", "Arm", ia)
+	l.WriteString(fmt.Sprintf("def proxyInitTimeoutMs : Nat := %d\n", proxyInitTimeout.Milliseconds()))
+	l.WriteString(fmt.Sprintf("def proxyStallTimeoutMs : Nat := %d\n\n", proxyStallTimeout.Milliseconds()))
+	l.WriteString("end CJ.Gen\n")
+	if err := os.WriteFile(filepath.Join(out, "RelayLoop.lean"), []byte(l.String()), 0o644); err != nil {
 		t.Fatal(err)
 	}
 }
